@@ -219,6 +219,33 @@ def check_memory_swap(ctx):
   ctx.check(not problems, "SWAP", key, ctx.where(f.module, f.node), f"saved in `{tmp}` before any clearing call, promoted, restored", "; ".join(problems) + ": pop-on captions loaded without ENM lose (or never see) the rows of the caption displayed before")
 
 
+def check_rollup_window(ctx):
+  """FIN-rollup: when a carriage return rolls the caption up, the new caption starts with the last
+  depth - 1 rows of the previous one (the window holds at most `depth` rows once the new row is
+  written), for depth 2, 3 and 4."""
+  from ..consteval import NotConst
+  ix = ctx.ix
+  f = ix.func("ttconv.scc.context:SccContext.process_control_code")
+  ctx.unit(f.module)
+  calls = [c for c in own_nodes(f.node) if isinstance(c, ast.Call) and isinstance(c.func, ast.Attribute) and c.func.attr == "get_last_caption_lines" and len(c.args) == 1]
+  if not calls:
+    raise AnalysisError(f"{f.qualname}: no get_last_caption_lines(<n>) call found in the roll-up handling")
+  ce = ConstEval(ix, symbolic_ok=False)
+  mod = f.module
+  for c in calls:
+    wrong = []
+    for d in (2, 3, 4):
+      try:
+        sub = match.replace_exprs([ast.Expr(c.args[0])], {"self.roll_up_depth": "__depth"})[0].value
+        k = ce.ev(mod, sub, f.cls, {"__depth": d})
+      except NotConst as e:
+        raise AnalysisError(f"{f.qualname}: `{short(c.args[0], 40)}` leaves the evaluable subset ({e})")
+      if k != d - 1:
+        wrong.append(f"depth {d}: {k} rows carried over, expected {d - 1}")
+    # the carried rows must not be post-processed in a way that depends on their number
+    ctx.check(not wrong, "FIN-rollup", f"{f.qualname}|{short(c, 50)}", ctx.where(mod, c), "depth - 1 rows for depth 2, 3, 4", "; ".join(wrong) + ": the roll-up window shows more (or fewer) rows than the selected depth")
+
+
 def check_copy_lines(ctx):
   """COPY-lines: the copy of a caption's rows that paint-on and roll-up captions carry forward keeps, for every text, its characters and every style property."""
   ix = ctx.ix
@@ -240,6 +267,7 @@ def run(ctx):
   check_styles_follow(ctx)
   check_memory_swap(ctx)
   check_copy_lines(ctx)
+  check_rollup_window(ctx)
   fs = common.funcs(ctx, ["ttconv.scc.caption_paragraph", "ttconv.scc.context", "ttconv.scc.line", "ttconv.scc.reader"])
   n = exa.check_exactness(ctx, fs, rule="EXA", exempt=common.EXA_EXEMPT, trunc_scope=common.time_trunc_scope(ctx))
   ctx.floor("EXA", "model time sinks in the SCC reader", n, 4)
